@@ -68,7 +68,7 @@ func runWorker(binary, id, mode, arg string, env ...string) (*WorkerResult, stri
 	for _, e := range env {
 		if strings.HasPrefix(e, "VERIF_BUDGET_S=") {
 			if s, err := strconv.Atoi(strings.TrimPrefix(e, "VERIF_BUDGET_S=")); err == nil {
-				limit = time.Duration(s)*time.Second + 90*time.Second
+				limit = 5*time.Duration(s)*time.Second + 90*time.Second // (a worker may stretch its budget under load)
 			}
 		}
 	}
